@@ -56,6 +56,11 @@ struct Shared {
     gate: tokio::sync::watch::Sender<bool>,
     /// `rgate` / `ropen`: the same for device reads
     rgate: tokio::sync::watch::Sender<bool>,
+    /// reads caught by the read gate are released when this generation changes (`ropen`); `rpass` lets later reads
+    /// through while the caught ones stay held
+    rrel: tokio::sync::watch::Sender<u64>,
+    /// `iogate hash=H seq=S`: while set, the write gate catches only index pages of `isize` bytes that list (H, S)
+    gate_only: Mutex<Option<(u64, u64, usize)>>,
     /// `lhold` / `lunhold`: disk loads wait while held
     lholder: foyer_storage::test_utils::Holder,
     /// `bget`: lookups running in the background, joined by `join`
@@ -72,6 +77,8 @@ impl Default for Shared {
             seen: Default::default(),
             gate: tokio::sync::watch::channel(false).0,
             rgate: tokio::sync::watch::channel(false).0,
+            rrel: tokio::sync::watch::channel(0).0,
+            gate_only: Default::default(),
             lholder: Default::default(),
             bg: Default::default(),
         }
@@ -101,10 +108,11 @@ impl IoEngine for LogIoEngine {
             base,
             statistics: partition.statistics().clone(),
         };
-        let mut gate = self.sh.rgate.subscribe();
+        let mut gate = self.sh.rrel.subscribe();
+        let caught = *gate.borrow_and_update();
         let inner = self.inner.clone();
         let fut = async move {
-            while *gate.borrow_and_update() {
+            while *gate.borrow_and_update() == caught {
                 if gate.changed().await.is_err() {
                     break;
                 }
@@ -122,7 +130,16 @@ impl IoEngine for LogIoEngine {
             data: buf.to_vec(),
             done: AtomicBool::new(false),
         });
-        if !*self.sh.gate.borrow() {
+        let selective_pass = match *self.sh.gate_only.lock() {
+            Some((h, sq, isize)) => {
+                !(rec.data.len() == isize
+                    && BlobIndexReader::read(&rec.data)
+                        .map(|idx| idx.iter().any(|i| i.hash == h && i.sequence == sq))
+                        .unwrap_or(false))
+            }
+            None => false,
+        };
+        if !*self.sh.gate.borrow() || selective_pass {
             self.sh.log.lock().push(rec.clone());
             let h = self.inner.write(buf, partition, offset);
             let fut = async move {
@@ -585,6 +602,7 @@ fn run_script(script: &[&str], n: usize) {
                             "ok".into()
                         }
                         "iogate" => {
+                            *sh.gate_only.lock() = kv.get("hash").map(|_| (geti(&kv, "hash"), geti(&kv, "seq"), index_size));
                             let _ = sh.gate.send_replace(true);
                             "ok".into()
                         }
@@ -593,6 +611,12 @@ fn run_script(script: &[&str], n: usize) {
                             "ok".into()
                         }
                         "ropen" => {
+                            let _ = sh.rgate.send_replace(false);
+                            sh.rrel.send_modify(|g| *g += 1);
+                            "ok".into()
+                        }
+                        "rpass" => {
+                            // later reads pass; the reads already caught stay held until `ropen`
                             let _ = sh.rgate.send_replace(false);
                             "ok".into()
                         }
@@ -611,6 +635,15 @@ fn run_script(script: &[&str], n: usize) {
                                     Err(e) => format!("err:{:?}", e.kind()),
                                 }
                             });
+                            sh.bg.lock().push((k, t));
+                            tokio::time::sleep(Duration::from_millis(geti_d(&kv, "ms", 20))).await;
+                            "ok".into()
+                        }
+                        "bsload" => {
+                            // a load straight from the disk store (`HybridCache::storage().load`) in the background
+                            let k = geti(&kv, "k");
+                            let hy = hh.as_ref().unwrap().clone();
+                            let t = tokio::spawn(async move { sload(&hy, k).await });
                             sh.bg.lock().push((k, t));
                             tokio::time::sleep(Duration::from_millis(geti_d(&kv, "ms", 20))).await;
                             "ok".into()
